@@ -44,6 +44,31 @@ def arrangements(n):
             yield list(zip(pts, pts[1:]))
 
 
+def neighbours(got, n):
+    """arrangements one edit away from `got`: one break moved by one fragment, one break removed, one break added.
+    Used instead of all 2^(n-1) arrangements when n is large: optimality against a subset is a necessary condition,
+    so the check stays sound (it can only miss, not invent, a violation)."""
+    brk = [a for a, _ in got[1:]]
+    seen = set()
+    out = []
+
+    def add(bs):
+        bs = tuple(sorted(set(bs)))
+        if bs in seen or bs == tuple(brk) or any(not 0 < b < n for b in bs):
+            return
+        seen.add(bs)
+        pts = [0] + list(bs) + [n]
+        out.append(list(zip(pts, pts[1:])))
+    for k, b in enumerate(brk):
+        add(brk[:k] + brk[k + 1:])
+        add(brk[:k] + [b - 1] + brk[k + 1:])
+        add(brk[:k] + [b + 1] + brk[k + 1:])
+    for b in range(1, n):
+        if b not in brk:
+            add(brk + [b])
+    return out
+
+
 class C03(FragHarness, WrapHarness):
     prop = 'C03'
     validate_every = 6
@@ -64,6 +89,8 @@ class C03(FragHarness, WrapHarness):
                             'gen': 'sym1', 'n': 3 if q else 4, 'wmax': 1 << 16})
         out.append({'level': 'text', 'feat': 'full', 'algo': 'O', 'sep': 'U', 'split': 'H', 'bw': True, 'gen': 'alpha',
                     'alphabet': [' ', 'a', '-', '你', '\u00ad'], 'n': 3 if q else 4, 'wmax': 1 << 16})
+        out += tmpl_spaces({'level': 'text', 'feat': 'full', 'algo': 'O', 'sep': 'A', 'split': 'H', 'bw': True, 'wmax': 1 << 16},
+                           ['short', 'longword'] if q else ['short', 'longword', 'sentence', 'hyphens', 'wide'])
         # arbitrary non-negative penalties
         out.append({'algo': 'O', 'num': 'int', 'n': 2 if q else 3, 'nlw': 1, 'B': 32, 'LB': 128, 'SB': 2, 'PB': 1,
                     'pen_le_next': True, 'lwmin': 0, 'sympen': True})
@@ -75,7 +102,7 @@ class C03(FragHarness, WrapHarness):
                 'penalty width <= 1 and <= the next fragment width, one or two symbolic line widths >= 0 (at width 0 optimality under either reading of the short-last-line threshold); default '
                 'penalties, and arbitrary penalties <= 2^8 at n <= %d; oracle: cost <= cost of each of the 2^(n-1) '
                 'arrangements under an independent transcription of the documented cost model. The ~60-fragment '
-                'regime of the property text is outside the claim.' % (3 if q else 4, 64 if q else 1024, 2 if q else 3))
+                'regime of the property text is outside the claim. Text level additionally on sentence templates; paragraphs of more than 7 fragments are compared with the arrangements one edit away (break moved / removed / added) only.' % (3 if q else 4, 64 if q else 1024, 2 if q else 3))
 
     def run(self, I, cfg):
         if cfg.get('level') == 'text':
@@ -187,7 +214,7 @@ class C03(FragHarness, WrapHarness):
         target width max(w, 1) as in the gap/overflow terms, or of the literal width); the result must be optimal
         under at least one of the two readings -- stated as one obligation."""
         n = len(frs)
-        alts = [a for a in arrangements(n) if a != got]
+        alts = [a for a in arrangements(n) if a != got] if n <= 7 else neighbours(got, n)
         if I.branch(v_and(*[v_le(1, lw) for lw in lws])):
             mine = cost_model(frs, lws, pen, got)
             for alt in alts:
